@@ -89,10 +89,11 @@ func drawC20(src *vs.Src) *c20Params {
 		if src.Bool(1, 3) {
 			p.RType = pickInt(src, []int{21, 23, 20})
 		}
-	} else if p.Client == "tlcp" {
-		// only with the TLCP stack behind the adapter: crypto/tls is real, uninstrumented code whose internal
-		// mutexes the kernel cannot schedule around
-		p.Concurrent = src.Bool(1, 2)
+	} else if p.Client == "tlcp" && p.Config == "tlcp-only" {
+		// only where no crypto/tls connection can come into being, however the adapter routes: crypto/tls is real,
+		// uninstrumented code whose internal mutexes the kernel cannot schedule around (two tasks inside one
+		// tls.Conn would stop the simulation, not the library)
+		p.Concurrent = true
 	}
 	return p
 }
